@@ -1,7 +1,8 @@
 import SimplicityModel.Driver.ProgUtil
 import SimplicityModel.HumanProg
 /-! C17 verbs
-`render P|N <plan> [T:… C:…]` → `ok <statements separated by single spaces>` | `err`:
+`render P|N <plan> [T:… C:…]` → `ok <statements separated by single spaces>` | `err`
+   (and `model-selfparse-…` if the model's own parser does not read the rendering back):
    the model of `Forest::from_program(commit).string_serialize()` (comment lines and column padding
    are not modelled: the harness drops comment lines and collapses white space)
 `parse <text as hex> [T:… C:…]` → `ok <root cmr> <nodes>` | `no` (an error, or not exactly the
@@ -35,7 +36,12 @@ def handle : List String → String
         match infer ex.jetTy p (mode = "P") with
         | .ok arrows =>
           match fromProgram ex.jetCmr p arrows with
-          | some ss => "ok " ++ joinStmts ss
+          | some ss =>
+            -- the conclusion of `parse_render` on this very rendering, evaluated by the model
+            let isJet (n : List Char) : Bool := (ex.jetTy (String.ofList n)).isSome
+            match parseRendered isJet (textChars ss) with
+            | some ss' => if ss' = ss then "ok " ++ joinStmts ss else "model-selfparse-differs"
+            | none => "model-selfparse-failed"
           | none => "bad-plan"
         | .typeError => "err"
         | .occurs => "err"
